@@ -18,9 +18,10 @@
      ("differ in Python type and so travel as ... their common base type") the
      first one is a plain int / plain str and the others are instances of
      subclasses (bool, wrapper classes) whose value fits INT32 / STRING
-     (lists only: for the values of a dict the inference takes the type of the
-     LAST value, not of the first, so no base type is common to them; dict
-     values of one class must all have one DBus type);
+     (lists and the values of a dict alike; before the repair of D61 the
+     inference took a dict's value type from the LAST value and
+     {'a': 5, 'b': True} came back as {'a': True, 'b': True}:
+     Props/C19.v C19_variant_roundtrip_legacy_refuted);
    - "or differ in Python type (and so travel as nested variants)": otherwise
      each element must itself be inside the claim, with a signature a variant
      can carry (at most 255 characters);
@@ -30,7 +31,14 @@
    - tuples are structs and need at least one field;
    - dict keys all have one basic DBus type, are not NaN, and are pairwise
      distinct under Python equality (automatic for a real Python dict; the
-     association-list representation has to say it);
+     association-list representation has to say it).  Keys of different DBus
+     types are outside the claim: the property's second alternative is
+     "differ in Python type AND SO travel as nested variants or as their
+     common base type"; a DBus dict key must be of one basic type (a{kv}), so
+     keys cannot travel as variants, and the inference makes no class test on
+     keys at all (it uses the type of the last key iterated; Python collapses
+     1, True and Byte(1) into one key anyway) - neither consequence the text
+     names exists for keys, so only "all share one DBus type" applies to them;
    - objects with dbusOrder and None have no inferred type.
 
    [py_eq v' v]: v' == v in Python, modulo the documented read-back
@@ -254,7 +262,7 @@ Fixpoint ref_ty (v : pyval) : option ty :=
           then
             if forallb (fun kv => subclass (class_of (snd kv)) (class_of x0)) r then
               match ref_ty x0 with
-              | Some vt => if forallb (fun kv => has_ty (ref_ty (snd kv)) vt) r
+              | Some vt => if forallb (fun kv => has_ty (ref_ty (snd kv)) vt || as_base x0 (snd kv)) r
                            then Some (TArray (TDictEntry kt vt)) else None
               | None => None
               end
